@@ -36,6 +36,7 @@ LEVEL_TEXT = (
     "input variants, INFO totals recomputed from the sample columns, and every token against the captured internal value rounded "
     "to three decimals; pysam re-read every output. Datasets and report sets are sampled, not enumerated."
 )
+LEVEL_TEXT += ' Session 3: an extra flavour with 130-260 SNVs per locus (SNV numbers beyond int8 / uint8).'
 LEVEL_NOTE = "Trusts vlib/vcfparse.py, the dataset generator's own record of what it wrote (reference text, SNVs, haplotype records) and Python's math.comb; pysam is used only as a second reader."
 RULE = (
     "case = one program run (dataset, program, --report set); non-trivial = the run emitted >=1 record with >=1 ALT or >=1 optional "
